@@ -52,8 +52,38 @@ class ASys(object):
         pool.rm(self.root)
 
     def state_key(self):
+        """product state: dict model x concrete persistent state x the handle's own (hidden) state"""
         items = tuple(sorted(((type(k).__name__, describe(k), describe(v)) for k, v in self.m.items())))
-        return (items, concrete_state(self.backend, self.root, self.a))
+        return (items, concrete_state(self.backend, self.root, self.a), impl_state(self.a, self.root))
+
+
+def impl_state(a, root):
+    """what the handle object itself carries and no contents comparison shows: its settings, an open
+    sqlite transaction, the in-memory dict of a cache and which archives it is bound to / has parked"""
+    out = []
+    seen = 0
+    while a is not None and seen < 3:
+        seen += 1
+        part = [type(a).__name__]
+        st = getattr(a, '__state__', None)
+        if isinstance(st, dict):
+            part.append(tuple(sorted((k, describe(v).replace(root, '<root>')) for k, v in st.items())))
+        conn = getattr(a, '_conn', None)
+        if conn is not None and hasattr(conn, 'in_transaction'):
+            part.append(('in_transaction', bool(conn.in_transaction)))
+        if isinstance(a, dict):
+            try:
+                part.append(tuple(sorted((type(k).__name__, describe(k), describe(v)) for k, v in dict.items(a))))
+            except Exception as e:
+                part.append(('ERR', type(e).__name__))
+        if type(a).__name__ == 'cache':
+            part.append(('swap', type(a.__swap__).__name__))
+            nxt = a.__archive__
+        else:
+            nxt = None
+        out.append(tuple(part))
+        a = nxt
+    return tuple(out)
 
 
 def key_ok_for_kw(k):
@@ -70,9 +100,12 @@ def op_list(cfg, prop):
             ops.append(('setitem', k, v))
     for k in (k0, k1, k2):
         ops += [('getitem', k), ('delitem', k), ('contains', k), ('get', k), ('get', k, 'dflt'), ('pop', k),
-                ('pop', k, 'dflt'), ('setdefault', k), ('setdefault', k, v0)]
+                ('pop', k, 'dflt'), ('setdefault', k), ('setdefault', k, v0),
+                # the default is (identical to) a value that may be stored: found-vs-default must not be inferred from the result
+                ('pop', k, v0), ('get', k, v1)]
     ops += [('len',), ('iter',), ('keys',), ('values',), ('items',), ('popitem',), ('clear',)]
-    ops += [('popkeys', (k0, k1)), ('popkeys', (k1, k2)), ('popkeys', (k0, k1), 'd'), ('popkeys', (k2, k0), 'd'), ('popkeys', ())]
+    ops += [('popkeys', (k0, k1)), ('popkeys', (k1, k2)), ('popkeys', (k0, k1), 'd'), ('popkeys', (k2, k0), 'd'), ('popkeys', ()),
+            ('popkeys', (k1, k0), v0)]
     ops += [('update', ((k0, v0), (k1, v1))), ('update_pairs', ((k1, v0), (k2, v1))), ('update', ((k0, v1), (k2, U))), ('update', ())]
     if all(key_ok_for_kw(k) for k in (k1, k2)):
         ops.append(('update_kw', ((k1, v1), (k2, v0))))
